@@ -55,6 +55,9 @@ func VerifHarness_StatusSequence() {
 		conn:               conn,
 		inbound:            &zzInbound{protocol: client, active: true},
 	}
+	// the packet context carries what the real decoder puts there: the protocol of the packet table
+	// it decoded with, which for an unsupported client protocol is the fallback (oldest) table
+	pcProto := state.FromDirection(proto.ServerBound, state.Status, client).Protocol
 	requests, responses := 0, 0
 	closedAt := -1
 	steps := 1 + zz.Choose(3)
@@ -63,12 +66,22 @@ func VerifHarness_StatusSequence() {
 		wasClosed := conn.closed > 0
 		switch zz.Choose(4) {
 		case 0: // status request
-			h.HandlePacket(&proto.PacketContext{Direction: proto.ServerBound, Protocol: client, Packet: &packet.StatusRequest{}, Payload: []byte{0}})
+			h.HandlePacket(&proto.PacketContext{Direction: proto.ServerBound, Protocol: pcProto, Packet: &packet.StatusRequest{}, Payload: []byte{0}})
 			requests++
 			if requests == 1 && !wasClosed {
 				zz.Assert(len(conn.log) == before+1 && conn.log[before].kind == "write-packet", "first status request was not answered with exactly one packet")
-				_, isResp := conn.log[before].packet.(*packet.StatusResponse)
+				resp, isResp := conn.log[before].packet.(*packet.StatusResponse)
 				zz.Assert(isResp, "first status request was not answered with a status response")
+				want := version.MaximumVersion.Protocol
+				if zzSupportedProtocol(client) {
+					want = client
+				}
+				_ = resp
+				// the response body is the JSON of the ping the handler built and announced
+				zz.Assert(len(ev.fired) == 1, "no ping was built for the first status request")
+				pe, isPing := ev.fired[0].(*PingEvent)
+				zz.Assert(isPing && pe.ping != nil, "no ping was built for the first status request")
+				zz.Assert(pe.ping.Version.Protocol == want, "the status response advertises neither the client's supported protocol nor the newest one")
 				responses++
 				zz.Reach("first-request")
 			} else if !wasClosed {
@@ -78,7 +91,7 @@ func VerifHarness_StatusSequence() {
 			}
 		case 1: // ping with arbitrary payload
 			payload := zz.Bytes(9)
-			h.HandlePacket(&proto.PacketContext{Direction: proto.ServerBound, Protocol: client, Packet: &packet.StatusPing{}, Payload: payload})
+			h.HandlePacket(&proto.PacketContext{Direction: proto.ServerBound, Protocol: pcProto, Packet: &packet.StatusPing{}, Payload: payload})
 			if !wasClosed {
 				zz.Assert(len(conn.log) == before+2, "ping was not answered with one write followed by close")
 				zz.Assert(conn.log[before].kind == "write" && bytes.Equal(conn.log[before].payload, payload), "ping echo is not byte-identical")
@@ -86,12 +99,12 @@ func VerifHarness_StatusSequence() {
 				zz.Reach("ping-echo")
 			}
 		case 2: // some other known packet
-			h.HandlePacket(&proto.PacketContext{Direction: proto.ServerBound, Protocol: client, Packet: &packet.Handshake{}, Payload: []byte{0}})
+			h.HandlePacket(&proto.PacketContext{Direction: proto.ServerBound, Protocol: pcProto, Packet: &packet.Handshake{}, Payload: []byte{0}})
 			zz.Assert(conn.closed > 0, "an unexpected packet did not close the connection")
 			zz.Assert(conn.count("write-packet") == responses && conn.count("write") <= 1, "an unexpected packet was answered")
 			zz.Reach("other-packet")
 		case 3: // unknown packet
-			h.HandlePacket(&proto.PacketContext{Direction: proto.ServerBound, Protocol: client, PacketID: 0x55, Payload: zz.Bytes(2)})
+			h.HandlePacket(&proto.PacketContext{Direction: proto.ServerBound, Protocol: pcProto, PacketID: 0x55, Payload: zz.Bytes(2)})
 			zz.Assert(conn.closed > 0, "an unknown packet did not close the connection")
 			zz.Reach("unknown-packet")
 		}
